@@ -26,6 +26,7 @@ Definition frag_nodes (ns : list node) : bool :=
   forallb (frag_node ns) ns && match ns with r :: _ => nkind_beq (n_kind r) KWorkflow | [] => false end.
 
 
-(* the operations: any scheduler step, and the four closing actions a client answers an act with *)
+(* the operations: any scheduler step, any tick (timeout rules of this class have no steps: a firing starts nothing), and
+   the four closing actions a client answers an act with *)
 Definition allowed (a : action) : bool := match a with ANext | ASubmit | ARemove | ASkip => true | _ => false end.
-Definition frag_op (o : op) : bool := match o with OSched _ | ODrain => true | OAct _ a _ => allowed a | OTick _ => false end.
+Definition frag_op (o : op) : bool := match o with OSched _ | ODrain | OTick _ => true | OAct _ a _ => allowed a end.
